@@ -199,7 +199,7 @@ def cases(tree):
         ("inner-rebal-h",  D, "h:135,136;h:45,75"),
     ]
 
-def coop_systematic(res, wd, drv, tier, tree="s3", pid=PID, nproc=6):
+def coop_systematic(res, wd, drv, tier, tree="s3", pid=PID, nproc=4):
     bound = 2 if tier == "quick" else 3
     cap = 2500 if tier == "quick" else 60000
     cs = cases(tree)
@@ -215,7 +215,7 @@ def coop_systematic(res, wd, drv, tier, tree="s3", pid=PID, nproc=6):
         res.sample({"schedule": j.header, "events": [e for e in j.events if e["e"] in ("fill", "call", "ret")], "final shape": j.shapes[-1:]})
     return jobs
 
-def coop_random(res, wd, drv, tier, trees=("s3", "s256"), pid=PID, nrandom=None, nproc=4):
+def coop_random(res, wd, drv, tier, trees=("s3", "s256"), pid=PID, nrandom=None, nproc=2):
     rng = random.Random(seed() * 101 + 13)
     n = nrandom or (1600 if tier == "quick" else 40000)
     jobs_in = []
@@ -301,14 +301,20 @@ def run(tier, replay_path=None):
         p = subprocess.run([drv], input=open(replay_path).read(), capture_output=True, text=True)
         print(p.stdout[-20000:]); return 0
     from concurrent.futures import ThreadPoolExecutor
+    import time
+    from ..common import log
+    t0 = time.time()
     with ThreadPoolExecutor(4) as ex:
         fa = ex.submit(abstract_model, res, wd)
         f1 = ex.submit(coop_systematic, res, wd, drv, tier)
         f2 = ex.submit(coop_random, res, wd, drv, tier)
         jobs = f1.result() + f2.result()
         fa.result()
+    log("C25: cooperative runs %.0fs" % (time.time() - t0)); t0 = time.time()
     jobs += stress(res, wd, drv, tier)          # real threads: not while the cooperative runs occupy the cores
+    log("C25: stress runs %.0fs" % (time.time() - t0)); t0 = time.time()
     validate(res, wd, "MCT_C25", jobs, PID)
+    log("C25: trace validation %.0fs" % (time.time() - t0))
     try:
         from . import c25conc
     except ImportError:
